@@ -2,6 +2,7 @@
   UnytModel.Ops.C04 — opcodes of the C04 model (prefix `c04.`).
 
   c04.rules                                     dump of the regenerated tables (translator cross-check)
+  c04.excluded                                  the literal exclusion list `Ref.C04.exclC04` (must mirror the known findings)
   c04.lutadd  name scale [offset] dim prefixable `registry.add(name, scale, dim, offset=…, prefixable=…)` on table 0
   c04.cancel  coeff factors                     `_cancel_mul(expr, registry)`
   c04.binary  ufunc k0 <unit0> z0 k1 <unit1> z1 pexp x0 x1
@@ -17,6 +18,7 @@
 import UnytModel.DriverBase
 import UnytModel.UfuncValue
 import UnytModel.UfuncProgram
+import UnytModel.Ref.C04Classes
 
 namespace Unyt
 open Unyt.UV
@@ -119,6 +121,7 @@ def stepC04 (st : DriverState) (fields : List String) : Option (DriverState × S
     let kv (l : List (String × String)) := ";".intercalate (l.map fun p => s!"{p.1}={p.2}")
     let G := Generated.C04.convRules
     some (st, s!"ok\t{kv Generated.C04.ufuncRules}\t{",".intercalate G}\t{",".intercalate Generated.C04.postMulRules}\t{",".intercalate Generated.C04.reducePowerUfuncs}\t{",".intercalate Generated.C04.trigOperators}\t{",".intercalate Generated.C04.eqNeUfuncs}")
+  | ["c04.excluded"] => some (st, s!"ok\t{",".intercalate Ref.C04.exclC04}")
   | ["c04.rule", f] =>
     match ruleOf f with
     | some r => some (st, s!"ok\t{r.pyName}")
